@@ -171,6 +171,10 @@ def safe_callable_names(root: ast.Module) -> Collection[str]:
             nonreturn_children = []
             for child in node.body:
                 if core.is_blocking(child):
+                    # What blocks may do other things first, unless it is a plain return, whose
+                    # value is looked at below
+                    if not isinstance(child, ast.Return):
+                        nonreturn_children.append(child)
                     break
 
                 nonreturn_children.append(child)
